@@ -72,37 +72,7 @@ def run (ctx):
 
   # ---- D2 allocator -------------------------------------------------------
   g = q.cfg_of(alloc)
-  # the allocator by evaluation on sample pools (X, Y occupied slots): which id comes back and what the pool looks like afterwards
-  X_, Y_ = ('x', 1), ('y', 2)
-  bufattr = 'self.' + BUF
-  # the attribute may have been renamed: take the one the allocator actually stores into / appends to
-  cand = [norm(c.func.value) for c in calls_in(alloc.node) if call_name(c) == 'append' and isinstance(c.func, ast.Attribute) and norm(c.func.value).startswith('self.')]
-  if cand and bufattr not in cand: bufattr = cand[0]
-  alias_src = [norm(v) for t, v, st, k in q.stores_in(alloc.node) if isinstance(t, ast.Name) and v is not None and isinstance(v, ast.Attribute) and norm(v.value) == 'self']
-  if not cand and alias_src: bufattr = alias_src[0]
-  def alloc_on (pool, maxb):
-    env = q.Env({bufattr: list(pool), 'self.max_buffers': maxb, alloc.params[1]: 'PKT', alloc.params[2] if len(alloc.params) > 2 else 'in_port': 9})
-    outs = set()
-    for p_, e_ in q.paths_under(repo, alloc.module, g, env, g.entry, [n for n in g.nodes if n.kind == 'return'] + [g.exit], sw, limit=200):
-      last = p_[-1]
-      try: rv = q.eval_env2(repo, alloc.module, last.ast.value, e_, sw) if last.kind == 'return' and last.ast.value is not None else None
-      except Exception: rv = '?'
-      pl = e_.exact.get(bufattr, '?')
-      outs.add((rv if isinstance(rv, (int, type(None))) else '?', tuple(pl) if isinstance(pl, list) else '?'))
-    return outs
-  NEW_ = ('PKT', 9)
-  cases = [((X_, None, Y_), 3, (2, (X_, NEW_, Y_))), ((X_, Y_), 4, (3, (X_, Y_, NEW_))), ((X_, Y_), 2, (None, (X_, Y_))), ((), 4, (1, (NEW_,))), ((None, None), 2, (1, (NEW_, None)))]
-  wrong = []; unknown = 0
-  for pool, maxb, want in cases:
-    got = alloc_on(pool, maxb)
-    if len(got) != 1 or any('?' in (x if isinstance(x, tuple) else (x,)) for g_ in got for x in g_): unknown += 1
-    elif got != {want}: wrong.append((pool, maxb, sorted(got, key=str), want))
-  if unknown:
-    ctx.undecided('R-AGREE', alloc, "allocator on sample pools: lowest free slot, id = index + 1, growth up to the bound, refusal when full", "%d of %d sample pools not evaluable" % (unknown, len(cases)), alloc, 'D2')
-  else:
-    ctx.ob('R-AGREE', alloc, "allocator on sample pools: lowest free slot, id = index + 1, growth up to the bound, refusal when full", not wrong, "%d sample pools" % len(cases) if not wrong else
-           "for pool %s with max_buffers=%s the allocator gives %s, expected %s" % wrong[0], alloc, 'D2')
-  alloc_by_value = not unknown
+  alloc_by_value, wrong, bufattr, X_, Y_ = allocator_samples(ctx, repo, sw, alloc, g, 'D2')
   grow = []     # nodes that enlarge the list
   reuse = []    # nodes that store into an existing slot
   for kind, site in q.mutations_of_attr(alloc.node, BUF):
@@ -376,6 +346,40 @@ def run (ctx):
     else:
       ctx.undecided('R-EFFECT', rxf, "a flow-mod that names a buffer releases it", "handler dispatch / buffer use not found in %s" % rxf.name, rxf, 'D3')
   packet_in_rules(ctx, repo, spi)
+
+def allocator_samples (ctx, repo, sw, alloc, g, clause):
+  # the allocator by evaluation on sample pools (X, Y occupied slots): which id comes back and what the pool looks like afterwards
+  X_, Y_ = ('x', 1), ('y', 2)
+  bufattr = 'self.' + BUF
+  # the attribute may have been renamed: take the one the allocator actually stores into / appends to
+  cand = [norm(c.func.value) for c in calls_in(alloc.node) if call_name(c) == 'append' and isinstance(c.func, ast.Attribute) and norm(c.func.value).startswith('self.')]
+  if cand and bufattr not in cand: bufattr = cand[0]
+  alias_src = [norm(v) for t, v, st, k in q.stores_in(alloc.node) if isinstance(t, ast.Name) and v is not None and isinstance(v, ast.Attribute) and norm(v.value) == 'self']
+  if not cand and alias_src: bufattr = alias_src[0]
+  def alloc_on (pool, maxb):
+    env = q.Env({bufattr: list(pool), 'self.max_buffers': maxb, alloc.params[1]: 'PKT', alloc.params[2] if len(alloc.params) > 2 else 'in_port': 9})
+    outs = set()
+    for p_, e_ in q.paths_under(repo, alloc.module, g, env, g.entry, [n for n in g.nodes if n.kind == 'return'] + [g.exit], sw, limit=200):
+      last = p_[-1]
+      try: rv = q.eval_env2(repo, alloc.module, last.ast.value, e_, sw) if last.kind == 'return' and last.ast.value is not None else None
+      except Exception: rv = '?'
+      pl = e_.exact.get(bufattr, '?')
+      outs.add((rv if isinstance(rv, (int, type(None))) else '?', tuple(pl) if isinstance(pl, list) else '?'))
+    return outs
+  NEW_ = ('PKT', 9)
+  cases = [((X_, None, Y_), 3, (2, (X_, NEW_, Y_))), ((X_, Y_), 4, (3, (X_, Y_, NEW_))), ((X_, Y_), 2, (None, (X_, Y_))), ((), 4, (1, (NEW_,))), ((None, None), 2, (1, (NEW_, None)))]
+  wrong = []; unknown = 0
+  for pool, maxb, want in cases:
+    got = alloc_on(pool, maxb)
+    if len(got) != 1 or any('?' in (x if isinstance(x, tuple) else (x,)) for g_ in got for x in g_): unknown += 1
+    elif got != {want}: wrong.append((pool, maxb, sorted(got, key=str), want))
+  if unknown:
+    ctx.undecided('R-AGREE', alloc, "allocator on sample pools: lowest free slot, id = index + 1, growth up to the bound, refusal when full", "%d of %d sample pools not evaluable" % (unknown, len(cases)), alloc, clause)
+  else:
+    ctx.ob('R-AGREE', alloc, "allocator on sample pools: lowest free slot, id = index + 1, growth up to the bound, refusal when full", not wrong, "%d sample pools" % len(cases) if not wrong else
+           "for pool %s with max_buffers=%s the allocator gives %s, expected %s" % wrong[0], alloc, clause)
+  alloc_by_value = not unknown
+  return alloc_by_value, wrong, bufattr, X_, Y_
 
 def packet_in_rules (ctx, repo, spi):
   # ---- D4 packet-in --------------------------------------------------------
